@@ -5,6 +5,7 @@ package main
 
 import (
 	"bytes"
+	"encoding/hex"
 	"context"
 	"fmt"
 	"io"
@@ -136,8 +137,35 @@ func corpus() []corpusItem {
 				corpusItems = append(corpusItems, it)
 			}
 		}
+		corpusItems = append(corpusItems, generatedCorpus()...)
 	})
 	return corpusItems
+}
+
+// generatedCorpus: documents for serialization formats whose tests carry no binary sample (cbor, bencode) or none
+// with boundary numbers: every number kind at its limits (uint64 max, int64 min, -2^64, bignums of 70 bits with
+// both signs, -0.0, denormal, 1e300), strings, bytes, bool, null, nested containers. Written by hand from the
+// specs (bytes computed once with Python's struct); the same for every seed.
+func generatedCorpus() []corpusItem {
+	h := func(s string) []byte {
+		b, err := hex.DecodeString(s)
+		if err != nil {
+			panic(err)
+		}
+		return b
+	}
+	nest := func(open, leaf, close string, depth int) []byte {
+		return []byte(strings.Repeat(open, depth) + leaf + strings.Repeat(close, depth))
+	}
+	return []corpusItem{
+		{Path: "generated/numbers.cbor", Formats: []string{"cbor"}, Data: h("98131bffffffffffffffff3b7fffffffffffffff3bffffffffffffffffc349400000000000000000c2494000000000000000052038ff00f98000fabfc00000fb7e37e43c8800759cfb8000000000000001f4f5f6636162636043010203a261613b7fffffffffffffff61628220c34105")},
+		{Path: "generated/numbers.msgpack", Formats: []string{"msgpack"}, Data: h("dc0010d38000000000000000cfffffffffffffffffd3ffffffffffffffffd080ff00cb8000000000000000cabfc00000cb7e37e43c8800759cc0c2c3a3616263a0c40301020382a161d38000000000000000a16292ffd18000")},
+		{Path: "generated/numbers.ber", Formats: []string{"asn1_ber"}, Data: h("303a020aff000000000000000000020a01000000000000000000020880000000000000000201ff0201000201800101ff05000c036162630403010203")},
+		{Path: "generated/numbers.bson", Formats: []string{"bson"}, Data: h("65000000126d696e000000000000000080126e656700fbffffffffffffff106933320000000080016400000000000000008001626967009c7500883ce4377e087400010a6e000273000400000061626300036f001000000012780000000000000000800000")},
+		{Path: "generated/nested.cbor", Formats: []string{"cbor"}, Data: append(bytes.Repeat([]byte{0x81}, 9), h("83016161a1616b820243010203")...)},
+		{Path: "generated/nested.bencode", Formats: []string{"bencode"}, Data: nest("l", "i1e1:ad1:kli-9223372036854775808e3:abcee", "e", 9)},
+		{Path: "generated/numbers.json", Formats: []string{"json"}, Data: []byte(`[18446744073709551615,-9223372036854775808,-18446744073709551616,-1180591620717411303424,1e300,-0.0,5e-324,"abc","",true,null,{"a":-9223372036854775808,"b":[-1,1.5]}]`)},
+	}
 }
 
 // corpusSample: all non-wasm items plus a PRNG subset of the 1.5k wasm spec files; capped by size.
